@@ -133,15 +133,34 @@ Proof.
     split; exact G.
   - (* TLst *) rewrite Forall_forall in H. split; [intros []|].
     intros Hin. apply in_flat_map in Hin as [x [Hx Hn]]. apply in_flat_map. exists x. split; [assumption|]. destruct (H x Hx) as [G1 G2]; auto.
-  - (* TPipe *) rewrite Forall_forall in H.
-    assert (G : In n (match l with TAny :: r => flat_map upd r | _ => [] end) -> In n (flat_map cls_names l)).
-    { destruct l as [|a r]; [intros []|]. destruct a; try (intros []). intros Hin.
-      apply in_flat_map in Hin as [x [Hx Hn]]. apply in_flat_map. exists x. split; [now right|]. destruct (H x (or_intror Hx)) as [G1 G2]; auto. }
+  - (* TPipe *) rewrite Forall_forall in H. assert (G : In n (flat_map upd l) -> In n (flat_map cls_names l)).
+    { intros Hin. apply in_flat_map in Hin as [x [Hx Hn]]. apply in_flat_map. exists x. split; [assumption|]. destruct (H x Hx) as [G1 G2]; auto. }
     split; exact G.
 Qed.
 
 Lemma upd_names : forall n t, In n (upd t) -> In n (cls_names t).
 Proof. intros n t. destruct (upd_names_aux n t) as [G _]. exact G. Qed.
+
+(* ... and all of them, for annotation objects (no Python tuples / lists inside): since the fix 2108a61 also under X | Y *)
+Lemma upd_complete : forall n t, ann_ok t = true -> In n (cls_names t) -> In n (upd t).
+Proof.
+  intros n. induction t using ty_ind'; cbn; intros Ha Hn; try assumption; try discriminate;
+    rewrite Forall_forall in H; rewrite forallb_forall in Ha.
+  - apply in_flat_map in Hn as [x [Hx Hn]]. apply in_flat_map. exists x. split; auto.
+  - apply in_flat_map in Hn as [x [Hx Hn]]. destruct (is_typing_callable g); apply in_flat_map; exists x; (split; [assumption|]).
+    + auto.
+    + specialize (Ha x Hx). destruct x; try (apply H; auto); cbn in Ha; discriminate.
+  - apply in_flat_map in Hn as [x [Hx Hn]]. apply in_flat_map. exists x. split; auto.
+Qed.
+
+Lemma ann_ok_ctx_covers : forall anns ctx,
+  (forall k t, In (k, t) anns -> ann_ok t = true) -> ctx_covers ctx anns = true.
+Proof.
+  induction anns as [|[k t] r IH]; intros ctx H; [reflexivity|]. cbn [ctx_covers]. apply andb_true_iff. split.
+  - apply forallb_forall. intros n Hn. apply orb_true_iff. left. apply mem_In. apply in_app_iff. left.
+    apply upd_complete; [apply (H k t); now left|assumption].
+  - apply IH. intros k0 t0 H0. apply (H k0 t0). now right.
+Qed.
 
 (* ---- _parse_documented_type ---------------------------------------------------------------------------- *)
 Lemma parse_ref_Ok_inv : forall ctx od a, parse_ref ctx od = Ok a ->
@@ -173,12 +192,13 @@ Proof.
   intros ctx scope e a H1 H2 H. destruct (eval_ctx_scope ctx scope e H1 H2) as [E|E]; congruence.
 Qed.
 
-Lemma parse_B : forall ctx scope d,
+Lemma parse_B : forall ctx scope od,
   (forall m, In m ctx -> In m scope) -> (forall m, In m scope -> name_ok m = true) ->
-  evaluable scope d = true ->
-  (exists a, parse_ref ctx (Some d) = Ok a) \/ parse_ref ctx (Some d) = Raise PDocstringC.
+  (forall d, od = Some d -> evaluable scope d = true) ->
+  (exists a, parse_ref ctx od = Ok a) \/ parse_ref ctx od = Raise PDocstringC.
 Proof.
-  intros ctx scope d H1 H2 Hev. unfold parse_ref. destruct (contains "typing." (dt_text d)); [now right|].
+  intros ctx scope od H1 H2 Hev. unfold parse_ref. destruct od as [d|]; [|now right].
+  specialize (Hev d eq_refl). destruct (contains "typing." (dt_text d)); [now right|].
   unfold evaluable in Hev. destruct (eval_ctx_scope ctx scope (dt_expr d) H1 H2) as [E|E]; rewrite E.
   - destruct (eval scope (dt_expr d)) as [v|x]; [left; eauto|]. rewrite Hev. now right.
   - right. reflexivity.
@@ -434,10 +454,11 @@ Proof.
 Qed.
 
 Theorem consistent_accepted : forall scope req parser ann doc,
-  sig_ok ann = true -> scope_ok scope ann = true -> ctx_covers [] ann = true -> doc_no_typing_dot doc = true ->
+  sig_ok ann = true -> scope_ok scope ann = true -> doc_no_typing_dot doc = true ->
   consistent scope ann doc -> check_ref (mkfc req parser ann doc) = Ok tt.
 Proof.
-  intros scope req parser ann doc Hs Hsc Hcov Hdot H. apply sig_ok_facts in Hs. apply scope_ok_facts in Hsc.
+  intros scope req parser ann doc Hs Hsc Hdot H. apply sig_ok_facts in Hs. apply scope_ok_facts in Hsc.
+  assert (Hcov : ctx_covers [] ann = true) by (apply ann_ok_ctx_covers; apply Hs).
   apply check_ref_Ok. cbn [mkfc f_ann f_doc]. destruct (consistent_complete_items scope ann doc Hs H) as [Hc Hit].
   split; [assumption|]. eapply items_loop; try eassumption; [apply Hsc|eapply ann_scope; eauto|intros m []].
 Qed.
@@ -448,10 +469,10 @@ Lemma loop_B : forall scope doc anns ctx,
   (forall k t m, In (k, t) anns -> In m (cls_names t) -> In m scope) ->
   (forall m, In m ctx -> In m scope) ->
   (forall k t, In (k, t) anns -> is_return k = true -> is_none t = false -> d_returns doc <> None) ->
-  doc_typed doc = true -> doc_evaluable scope doc = true ->
+  doc_evaluable scope doc = true ->
   loop_ref doc ctx anns = Ok tt \/ loop_ref doc ctx anns = Raise PDocstringC.
 Proof.
-  intros scope doc. induction anns as [|[k t] r IH]; intros ctx Hok Hn Hc Hr Hty Hev; [now left|].
+  intros scope doc. induction anns as [|[k t] r IH]; intros ctx Hok Hn Hc Hr Hev; [now left|].
   cbn [loop_ref].
   assert (Hc' : forall m, In m (upd t ++ ctx) -> In m scope).
   { intros m Hm. apply in_app_iff in Hm as [Hm|Hm]; [|auto]. apply (Hn k t m); [now left|now apply upd_names]. }
@@ -464,25 +485,23 @@ Proof.
   - destruct (is_none t) eqn:N; [assumption|].
     destruct (d_returns doc) as [l|] eqn:R; [|exfalso; eapply (Hr k t); eauto; now left].
     destruct l as [|d [|d' l']]; auto.
-    destruct (parse_B (upd t ++ ctx) scope d Hc' Hok) as [[a P]|P].
-    { apply Hev. eapply doc_types_returns; eauto. now left. }
+    destruct (parse_B (upd t ++ ctx) scope (Some d) Hc' Hok) as [[a P]|P].
+    { intros d0 E0. inversion E0; subst d0. apply Hev. eapply doc_types_returns; eauto. now left. }
     + rewrite P. cbn [bind]. destruct (ty_eqb a t); auto.
     + rewrite P. now right.
   - destruct (filter (fun p => String.eqb (fst p) k) (d_params doc)) as [|p ps] eqn:F; [now right|].
     apply filter_name_head in F as [Hp _].
-    unfold doc_typed in Hty. rewrite forallb_forall in Hty. specialize (Hty p Hp).
-    destruct (snd p) as [d|] eqn:E; [|discriminate].
-    destruct (parse_B (upd t ++ ctx) scope d Hc' Hok) as [[a P]|P].
-    { apply Hev. eapply doc_types_param; eauto. }
+    destruct (parse_B (upd t ++ ctx) scope (snd p) Hc' Hok) as [[a P]|P].
+    { intros d E. apply Hev. eapply doc_types_param; eauto. }
     + rewrite P. cbn [bind]. destruct (ty_eqb t a); auto.
     + rewrite P. now right.
 Qed.
 
 Theorem only_docstring_exception : forall scope req parser ann doc,
-  sig_ok ann = true -> scope_ok scope ann = true -> doc_typed doc = true -> doc_evaluable scope doc = true ->
+  sig_ok ann = true -> scope_ok scope ann = true -> doc_evaluable scope doc = true ->
   check_ref (mkfc req parser ann doc) = Ok tt \/ check_ref (mkfc req parser ann doc) = Raise PDocstringC.
 Proof.
-  intros scope req parser ann doc Hs Hsc Hty Hev. apply sig_ok_facts in Hs. apply scope_ok_facts in Hsc.
+  intros scope req parser ann doc Hs Hsc Hev. apply sig_ok_facts in Hs. apply scope_ok_facts in Hsc.
   unfold check_ref. cbn [mkfc f_ann f_doc].
   destruct (complete_ref_cases ann doc) as [E|E]; rewrite E; cbn [bind]; [|now right].
   eapply loop_B; try eassumption; [apply Hsc|eapply ann_scope; eauto|intros m []|].
@@ -491,11 +510,11 @@ Proof.
 Qed.
 
 Theorem inconsistent_rejected : forall scope req parser ann doc,
-  sig_ok ann = true -> scope_ok scope ann = true -> doc_typed doc = true -> doc_evaluable scope doc = true ->
+  sig_ok ann = true -> scope_ok scope ann = true -> doc_evaluable scope doc = true ->
   ~ consistent scope ann doc -> check_ref (mkfc req parser ann doc) = Raise PDocstringC.
 Proof.
-  intros scope req parser ann doc Hs Hsc Hty Hev Hn.
-  destruct (only_docstring_exception scope req parser ann doc Hs Hsc Hty Hev) as [E|E]; [|assumption].
+  intros scope req parser ann doc Hs Hsc Hev Hn.
+  destruct (only_docstring_exception scope req parser ann doc Hs Hsc Hev) as [E|E]; [|assumption].
   exfalso. apply Hn. eapply accepted_consistent; eauto.
 Qed.
 
@@ -573,14 +592,13 @@ Qed.
 
 Theorem one_edit_rejected : forall scope req parser ann doc doc',
   sig_ok ann = true -> scope_ok scope ann = true ->
-  consistent scope ann doc -> one_edit scope doc doc' -> ~ is_untype_param doc doc' ->
+  consistent scope ann doc -> one_edit scope doc doc' ->
   check_ref (mkfc req parser ann doc') = Raise PDocstringC.
 Proof.
-  intros scope req parser ann doc doc' Hs Hsc Hcons Hedit Hnu.
+  intros scope req parser ann doc doc' Hs Hsc Hcons Hedit.
   pose proof (sig_ok_facts _ Hs) as SF.
   destruct (consistent_complete_items scope ann doc SF Hcons) as [Hcomp _].
   apply complete_ref_Ok in Hcomp as [Hraw [Hlen Hret]].
-  pose proof (consistent_typed _ _ _ Hcons) as Hty.
   inversion Hedit; subst; cbn [mkdoc d_raw d_params d_returns] in *.
   - (* drop a parameter *)
     apply complete_fail_check. intros C. apply complete_ref_Ok in C as [_ [C _]]. cbn in C.
@@ -591,7 +609,6 @@ Proof.
   - (* rename a parameter *)
     destruct (consistent_doc_evaluable _ _ _ _ _ Hcons) as [Ev1 Ev2].
     apply (inconsistent_rejected scope); try assumption.
-    + rewrite doc_typed_mk in *. rewrite forallb_app in *. cbn in *. exact Hty.
     + apply doc_evaluable_mk; [|assumption]. intros m d Hin. apply in_app_iff in Hin as [Hin|[Hin|Hin]].
       * apply (Ev1 m d). apply in_app_iff. now left.
       * inversion Hin; subst. apply (Ev1 n d). apply in_app_iff. right. now left.
@@ -604,7 +621,6 @@ Proof.
   - (* change one documented type *)
     destruct (consistent_doc_evaluable _ _ _ _ _ Hcons) as [Ev1 Ev2].
     apply (inconsistent_rejected scope); try assumption.
-    + rewrite doc_typed_mk in *. rewrite forallb_app in *. cbn in *. exact Hty.
     + apply doc_evaluable_mk; [|assumption]. intros m d0 Hin. apply in_app_iff in Hin as [Hin|[Hin|Hin]].
       * apply (Ev1 m d0). apply in_app_iff. now left.
       * inversion Hin; subst. assumption.
@@ -638,28 +654,15 @@ Proof.
     apply (inconsistent_rejected scope); try assumption.
     + apply doc_evaluable_mk; [assumption|]. intros l d0 E Hin. inversion E; subst. contradiction.
     + intros C. destruct (consistent_returns _ _ _ C) as [[R _]|[x' [t' [R' _]]]]; cbn in *; discriminate.
-  - (* a parameter without a type: excluded *)
-    exfalso. apply Hnu. unfold is_untype_param. exists raw, l1, n, d, l2, r. auto.
-Qed.
-
-(* ---- annotations without `X | Y`: _update_context collects every class --------------------------------------------------------------- *)
-Lemma upd_complete_aux : forall n t, ann_ok t = true -> no_pipe t = true -> In n (cls_names t) -> In n (upd t).
-Proof.
-  intros n. induction t using ty_ind'; cbn; intros Ha Hp Hn; try assumption; try discriminate;
-    rewrite Forall_forall in H; rewrite forallb_forall in Ha, Hp.
-  - apply in_flat_map in Hn as [x [Hx Hn]]. apply in_flat_map. exists x. split; auto.
-  - apply in_flat_map in Hn as [x [Hx Hn]]. destruct (is_typing_callable g); apply in_flat_map; exists x; (split; [assumption|]).
-    + auto.
-    + specialize (Ha x Hx). destruct x; try (apply H; auto); cbn in Ha; discriminate.
-Qed.
-
-Lemma no_pipe_ctx_covers : forall anns ctx,
-  (forall k t, In (k, t) anns -> ann_ok t = true /\ no_pipe t = true) -> ctx_covers ctx anns = true.
-Proof.
-  induction anns as [|[k t] r IH]; intros ctx H; [reflexivity|]. cbn [ctx_covers]. apply andb_true_iff. split.
-  - apply forallb_forall. intros n Hn. destruct (H k t (or_introl eq_refl)) as [Ha Hp].
-    apply orb_true_iff. left. apply mem_In. apply in_app_iff. left. now apply upd_complete_aux.
-  - apply IH. intros k0 t0 H0. apply (H k0 t0). now right.
+  - (* a parameter without a type *)
+    destruct (consistent_doc_evaluable _ _ _ _ _ Hcons) as [Ev1 Ev2].
+    apply (inconsistent_rejected scope); try assumption.
+    + apply doc_evaluable_mk; [|assumption]. intros m d0 Hin. apply in_app_iff in Hin as [Hin|[Hin|Hin]].
+      * apply (Ev1 m d0). apply in_app_iff. now left.
+      * inversion Hin.
+      * apply (Ev1 m d0). apply in_app_iff. right. now right.
+    + intros [_ [_ [_ [Hty' _]]]]. cbn [mkdoc d_params] in Hty'.
+      destruct (Hty' n None) as [x' [t' [E' _]]]; [apply in_app_iff; right; now left|]. discriminate.
 Qed.
 
 (* ---- the executable form of the specification ----------------------------------------------------------------------------------------------- *)
